@@ -130,7 +130,7 @@ theorem weak_wLoad_unsafe :
 /-- producer reload relaxed: a cell is overwritten whose read does not happen-before -/
 theorem weak_rLoad_unsafe :
     let o := { quillOrders with rLoad := .relaxed }
-    let sched : List Op := [.write 2, .commitW, .loadW 2, .read 2, .commitR, .reloadR 2]
+    let sched : List Op := [.write 2, .commitW, .loadW 2, .read 2, .commitR true, .reloadR 2]
     Run o (init 2 0) sched ∧ Enabled (run o (init 2 0) sched) (.write 2) ∧
       ¬ Safe (run o (init 2 0) sched) (.write 2) := by
   refine ⟨by decide, by decide, ?_⟩
@@ -139,7 +139,7 @@ theorem weak_rLoad_unsafe :
 /-- non-vacuity: a legal schedule that fills, drains, publishes and then grants a full-capacity record,
     wrapping the physical offset -/
 example : Run quillOrders (init 8 0)
-    [.write 5, .commitW, .loadW 5, .read 5, .commitR, .reloadR 5, .write 8, .commitW, .loadW 13, .read 8] := by
+    [.write 5, .commitW, .loadW 5, .read 5, .commitR true, .reloadR 5, .write 8, .commitW, .loadW 13, .read 8] := by
   decide
 
 end Spsc
